@@ -50,7 +50,7 @@ def gen_case(rng, tier):
         p["n_samples"] = int(rng.integers(1, 4))
         p["mirror"] = bool(rng.integers(0, 2))
     else:
-        ns = [0, 1, 2, 3, [2, 0], [0, 2], [1, 3]][int(rng.integers(0, 7))]
+        ns = [0, 1, 2, 3, [2, 0], [0, 2], [1, 3], [3, 1], [2, 1]][int(rng.integers(0, 9))]
         p["n_samples"] = ns
         p["n_iter"] = 2
         p["save_strategy"] = ("latest", "all")[int(rng.integers(0, 2))]
